@@ -59,6 +59,9 @@ def on_grid_ticks(q, tick, lo, hi):
 
 def gen_case(rng, tier, long_ticks=None):
     tpb = rng.choice(G.TPBS)
+    mode = rng.choice(["zero", "grid", "near", "off", "any"]) if long_ticks is None else "long"
+    if mode == "near" and rng.random() < 0.5:
+        tpb = rng.choice([480, 960, 1920])        # a call one tick off a coarse grid: t/q is within 1e-3 of an integer
     tick = F(1, tpb)
     cfg = {}
     if rng.random() < 0.25:
@@ -80,14 +83,18 @@ def gen_case(rng, tier, long_ticks=None):
     nreq = 1 if family == "schedule" else rng.choice([1, 1, 2, 2, 3])
     reqs = []
     q0, d0 = qd_value(rng, tick), qd_value(rng, tick)
+    if mode == "near" and rng.random() < 0.5:
+        q0 = rng.choice([F(4), F(1)])
     qe0, _ = resolve(q0, d0)
     hi = 4 * tpb + 3
-    mode = rng.choice(["zero", "grid", "off", "any"]) if long_ticks is None else "long"
     if mode == "zero":
         k0 = 0
     elif mode == "grid":
         cands = on_grid_ticks(qe0, tick, 1, hi)
         k0 = rng.choice(cands) if cands else rng.randint(1, hi)
+    elif mode == "near":          # one tick before / after a grid point
+        cands = on_grid_ticks(qe0, tick, 1, hi)
+        k0 = max(0, (rng.choice(cands) if cands else rng.randint(1, hi)) + rng.choice([-1, 1]))
     elif mode == "off":
         k0 = rng.randint(1, hi)
         if qe0 and (k0 * tick / qe0).denominator == 1:
